@@ -4,11 +4,12 @@
 set -e
 cd "$(dirname "$0")"
 export CARGO_NET_OFFLINE=true
-python3 tools/translate.py /repo >/dev/null
+python3 tools/translate.py "${VERIF_REPO:-/repo}" >/dev/null
 cd coq
 python3 ../tools/mkproject.py
 timeout 3000 make -f Makefile.coq -j16
 cd ../harness
+sed "s|@REPO@|${VERIF_REPO:-/repo}|" Cargo.toml.in > Cargo.toml
 [ -f Cargo.lock ] || cp /repo/Cargo.lock Cargo.lock
 CARGO_TARGET_DIR=../build/harness-target RUSTFLAGS="--cfg smlxl_storage_layout_extractor_verif" timeout 3000 cargo build --offline
 echo setup-ok
